@@ -14,6 +14,7 @@ import itertools
 import json
 import re
 import sys
+import time
 
 from common import *  # noqa
 
@@ -130,7 +131,13 @@ def py_b16(s):
 
 
 def py_b64(s):
-    if not all(ord(c) < 128 for c in s):
+    """RFC 4648 base64 with mandatory padding: shape checked procedurally (the stdlib tolerates excess
+    padding even with validate=True), value from the stdlib."""
+    if len(s) % 4 != 0 or not all(ord(c) < 128 for c in s):
+        return None
+    core = s.rstrip("=")
+    npad = len(s) - len(core)
+    if npad > 2 or any(c not in B64 for c in core) or (npad and len(core) % 4 != 4 - npad):
         return None
     try:
         return base64.b64decode(s.encode("ascii"), validate=True)
@@ -440,7 +447,7 @@ def gen_method_sigs(rng, n):
         out.append(s)
         if rng.random() < 0.2:
             out.append(mutate_text(rng, s, '"\\\n;/ #'))
-    return out
+    return [s for s in out if not any(0xD800 <= ord(c) < 0xE000 for c in s)]
 
 
 # ---------------------------------------------------------------------------------------------
@@ -464,6 +471,13 @@ def main(argv):
     def tally(k, n=1):
         dist[k] = dist.get(k, 0) + n
 
+    timing = {}
+    last = [time.time()]
+
+    def mark(name):
+        timing[name] = round(time.time() - last[0], 1)
+        last[0] = time.time()
+
     if args.replay:
         return replay(args.replay, model, oracle)
 
@@ -472,7 +486,7 @@ def main(argv):
     #    defect of the machinery (exit 2), not of /repo
     # =================================================================================================
     spec_cases = []
-    for base, alpha, ml in (("16", "0aF9gx", 5 if thorough else 4), ("32", "AZ27=a1", 5 if thorough else 4), ("64", "Ab9+/=-", 5 if thorough else 4)):
+    for base, alpha, ml in (("16", "0aF9gx", 6 if thorough else 5), ("32", "AZ27=a1", 6 if thorough else 5), ("64", "Ab9+/=-", 6 if thorough else 5)):
         spec_cases += [(base, s) for s in small_strings(alpha, ml)]
     for l in gen_base_cases(rng, 4000 if thorough else 1200):
         if l[1] in ("base16", "base32", "base64") and all(ord(c) < 256 for c in l[2]):
@@ -500,6 +514,7 @@ def main(argv):
                 break
             tally("spec-validation-encoders")
 
+    mark("spec-validation")
     # =================================================================================================
     # 1. escapeStr / Bytes(str)
     # =================================================================================================
@@ -542,11 +557,11 @@ def main(argv):
     compare_escape(one, "exhaustive-1cp", True)
     compare_escape(two, "exhaustive-2cp", False)
     ck.coverage["exhaustive"] = True
-    ck.coverage["exhaustive_domain"] = "all 65,792 strings of one or two code points below 256 (escapeStr); all strings over 7-8 letter alphabets up to length %d (validators)" % (5 if thorough else 4)
+    ck.coverage["exhaustive_domain"] = "all 65,792 strings of one or two code points below 256 (escapeStr); all strings over 7-8 letter alphabets up to length %d (validators)" % (6 if thorough else 5)
     cps = codepoint_sample(rng, thorough)
     compare_escape([chr(c) for c in cps], "codepoints", False)
     compare_escape(["\ud800", "a\udfffb", "\U0010ffff"], "surrogates", False)
-    rnd = [rand_hazard_string(rng) for _ in range(30000 if thorough else 4000)]
+    rnd = [rand_hazard_string(rng) for _ in range(40000 if thorough else 10000)]
     rnd = compare_escape(rnd, "random-hazard", True)
     for s in rnd[:3]:
         ck.sample({"kind": "Bytes(str)", "codepoints": [ord(c) for c in s], "teal": real_line(pt.Bytes, s)[1]})
@@ -576,11 +591,12 @@ def main(argv):
                 mismatch.append(("Bytes(%s).__teal__" % ctor.__name__, ("raw", b), rl, opt(m)))
     fails += oracle.run([("raw", b) for b in raws] + [("raw", bytearray(b)) for b in raws[:50]])
 
+    mark("escape+bytes")
     # =================================================================================================
     # 2. validators and Bytes(base, text)
     # =================================================================================================
     base_cases = []
-    ml = 5 if thorough else 4
+    ml = 6 if thorough else 5
     for base, alpha in (("base16", "0aF9gx \n"), ("base32", "AZ27=a18"), ("base64", "Ab9+/=- ")):
         base_cases += [("base", base, s) for s in small_strings(alpha, ml)]
         if base == "base16":
@@ -638,6 +654,7 @@ def main(argv):
         if not (r[0] == "exc" and r[1] == "TealInputError"):
             ck.violation("Bytes%r is not rejected with TealInputError: %r" % (a, r[:2]), {"kind": "type", "ctor": "Bytes", "args": repr(a), "observed": r[:2]})
 
+    mark("base-n")
     # =================================================================================================
     # 3. Int
     # =================================================================================================
@@ -668,6 +685,7 @@ def main(argv):
         if not (r[0] == "exc" and r[1] == "TealInputError"):
             ck.violation("Int(%r) is not rejected with TealInputError: %r" % (a, r[:2]), {"kind": "type", "ctor": "Int", "args": repr(a), "observed": r[:2]})
 
+    mark("int")
     # =================================================================================================
     # 4. Addr
     # =================================================================================================
@@ -705,6 +723,7 @@ def main(argv):
         if not (r[0] == "exc" and r[1] == "TealInputError"):
             ck.violation("Addr(%r) is not rejected with TealInputError: %r" % (a, r[:2]), {"kind": "type", "ctor": "Addr", "args": repr(a), "observed": r[:2]})
 
+    mark("addr")
     # =================================================================================================
     # 5. MethodSignature
     # =================================================================================================
@@ -754,6 +773,7 @@ def main(argv):
     rng.shuffle(pool)
     fails += oracle.run(pool, group=24)
 
+    mark("method+mixed")
     # =================================================================================================
     # 6. known findings replayed against the real code
     # =================================================================================================
@@ -777,6 +797,7 @@ def main(argv):
        (meth_known and not any(k[0] == "methodsig-unescaped" for k in ck.known_seen)):
         ck.model_problem("cases were attributed to a known finding whose witness no longer reproduces")
 
+    mark("known")
     # =================================================================================================
     # 7. verdict
     # =================================================================================================
@@ -806,12 +827,14 @@ def main(argv):
         ck.violation("proof obligation broken: Props/C13.v or Proofs/Lit*.v no longer checks",
                      {"kind": "proof", "broken": "Props/C13.v", "log": ck.proof_log[-1500:]}, no_failing_input=True)
     ck.coverage["input_distribution"] = dist
+    ck.coverage["timing_s"] = timing
     ck.coverage["oracle_literals_read_back"] = oracle.checked
     ck.coverage["oracle_by_kind"] = oracle.hist
     ck.coverage["prevchar_variant_differs_on_lines"] = oracle.prevchar_differs
     ck.coverage["disagreements_checked"] = len(mismatch) + len(fails)
     ck.coverage["known_class_members"] = {"addr-checksum-unchecked": len(addr_known), "methodsig-unescaped": len(meth_known)}
-    ck.sample({"kind": "Bytes(base,text)", "literal": lit_json(well[0]) if well else None})
+    for l in [w for w in well if len(w[2]) > 6][:2]:
+        ck.sample({"kind": "Bytes(base,text)", "literal": lit_json(l), "teal": real_line(pt.Bytes, l[1], l[2])[1], "value_hex": expected_value(l)[1].hex()})
     ck.sample({"kind": "oracle", "teal": pt.compileTeal(pt.Seq(pt.Pop(pt.Bytes('a"\\ //;\n')), pt.Approve()), pt.Mode.Application, version=6)})
     model.close()
     return ck.finish(
